@@ -257,22 +257,33 @@ Theorem C22_ex_ts_run :
 Proof. exact (conj ex_ts_run ex_ids_disjoint). Qed.
 Print Assumptions C22_ex_ts_run.
 
-(** REFUTED at system level: with two subsystems owning scheduled events, System::Guts::calcTimeOfNextScheduledEventImpl
-    AS WRITTEN ([sys_next false]) keeps the ids of a subsystem whose event is LATER than the one found afterwards (the clear()
-    follows the assignment it depends on): a default-subsystem handler (id 0) due at t=1/2 is listed for the event of
-    another subsystem (id 1) at t=5/16 -- and TimeStepper then calls it there.  With the two statements in the intended
-    order ([sys_next true]) only id 1 is listed.  The witness is replayed on the implementation by the check. *)
-Theorem C22_sys_next_two_subsystems_refuted S :
+(** System::Guts::calcTimeOfNextScheduledEventImpl / ...ReportImpl as repaired in /repo (748896e4: test before assign),
+    for ANY number of subsystems: the returned time is the earliest eligible next-event time over all subsystems and the
+    ids are exactly the handlers due then.  The check determines on every run that the implementation follows this
+    variant ([clearFirst = true]) and not the pre-repair one. *)
+Theorem C22_sys_next_spec S sel subs t incl tn ids : sys_next S true sel subs t incl = (tn, ids) ->
+  (forall i, In i ids -> exists ss h, In ss subs /\ In h (sel ss) /\ h_id h = i /\
+       eligible t incl (h_next h t incl) = true /\ Ieq (h_next h t incl) tn) /\
+  (forall ss h, In ss subs -> In h (sel ss) -> eligible t incl (h_next h t incl) = true ->
+      Ile tn (h_next h t incl) /\ (Ieq (h_next h t incl) tn -> In (h_id h) ids)).
+Proof. exact (sys_next_spec S sel subs t incl tn ids). Qed.
+Print Assumptions C22_sys_next_spec.
+
+(** REGRESSION lemmas for the repaired defect: the loop as written before 748896e4 ([sys_next false]) kept the ids of a
+    subsystem whose event is LATER than the one found afterwards -- a default-subsystem handler (id 0) due at t=1/2 was
+    listed for (and then called at) the event of another subsystem (id 1) at t=5/16 -- while the repaired loop lists only
+    id 1.  The same witnesses are run on the implementation by the check and must now give the repaired answers. *)
+Theorem C22_sys_next_two_subsystems_regression S :
   sys_next S false ss_handlers (w_subs S) 0 true = (Some (5#16), [0%nat; 1%nat]) /\
   sys_next S false ss_handlers (w_subs S) (5#16) false = (Some (1#2), [0%nat]) /\
   sys_next S true ss_handlers (w_subs S) 0 true = (Some (5#16), [1%nat]).
-Proof. exact (sys_next_two_subsystems_refuted S). Qed.
-Print Assumptions C22_sys_next_two_subsystems_refuted.
+Proof. exact (sys_next_two_subsystems_regression S). Qed.
+Print Assumptions C22_sys_next_two_subsystems_regression.
 
-(** same defect, second face: a handler with no further event (next time +Infinity) is listed for every later event of
-    another subsystem *)
-Theorem C22_sys_next_exhausted_handler_refuted S :
+(** second face of the same repaired defect: a handler with no further event (next time +Infinity) was listed for every
+    later event of another subsystem *)
+Theorem C22_sys_next_exhausted_handler_regression S :
   sys_next S false ss_handlers (w_subs2 S) (5#16) false = (Some (1#2), [0%nat; 1%nat]) /\
   sys_next S true ss_handlers (w_subs2 S) (5#16) false = (Some (1#2), [1%nat]).
-Proof. exact (sys_next_exhausted_handler_refuted S). Qed.
-Print Assumptions C22_sys_next_exhausted_handler_refuted.
+Proof. exact (sys_next_exhausted_handler_regression S). Qed.
+Print Assumptions C22_sys_next_exhausted_handler_regression.
